@@ -6,3 +6,10 @@ ENGINES_EXTRA = []
 add("C01", "property-based round trip against an independent encoder + exhaustive sweeps (addresses, types, lengths)",
     "Generated-input search: every frame is encoded four ways (owned/borrowed x with/without CRLF) and compared byte for byte with an independent encoder written from the documented diagram, the wire-shape predicate is checked directly, and both encodings must decode to an equal frame; all addresses, all types and all lengths are swept exhaustively, contents are sampled (boundary biased). Data::try_new is driven over every length 0..=300 and sampled lengths up to 70000. No proof: contents beyond the sweeps are sampled.",
     "trusts oracle/hex.rs (independent encoder, unit-tested against the documented golden frames)", "DESIGN.md section 3 C01")
+
+add("C02", "exhaustive single-fault neighbourhood enumeration per generated frame + generated forgeries (fault injection on the wire text)",
+    "For every generated valid frame the complete set of single-character faults named by the property (256-way substitution at every position, deletion, duplication, adjacent swap, every proper prefix; with and without CRLF) is enumerated and each mutant must be rejected or decode to the original; forged frames with a consistent shape but wrong length or checksum must be rejected. The fault set per frame is complete (structural alphabet for frames over 64 data bytes); frames are sampled.",
+    "mutants are built from the harness's reference encoding; frames over 64 data bytes use a reduced substitution alphabet", "DESIGN.md section 3 C02")
+add("C03", "differential testing against an independent byte-level parser: exhaustive short strings + grammar-based generation with generator-health check",
+    "Every explored byte string is decoded by flipdot and by an independent hand-written Intel-HEX parser; they must agree on accept/reject, on the error class with the stated precedence, on the reported counts/checksums, and accepted strings must re-encode to themselves up to case/terminator. All strings up to length 4 (5 thorough) over a 28-symbol structural alphabet, all 4^10 minimal frames x 9 terminators and all 3^12 one-byte frames are enumerated; longer inputs come from a grammar-based generator with byte edits whose class balance is measured on every run (exit 2 if a class starves).",
+    "trusts the reference parser; strings longer than the exhaustive bound are sampled", "DESIGN.md section 3 C03")
